@@ -51,7 +51,7 @@ func c14Scenarios() []histParams {
 	ev := []string{"inv:T:R1", "inv:U1:R1", "inv:U2:R1", "inv:T:R1,R3", "inv:U1:R3", "ans", "uans:U1", "uans:U2", "uping:U1", "uping:U2", "ping", "tick:1000", "tick:3100", "mine+:R1", "reorgmine:1:R1", "settle"}
 	deep := []string{"inv:T:R1", "inv:U1:R1", "reorgmine:1:R1", "settle", "tick:3100", "uping:U1", "mine+:R1", "ans"}
 	// one peer delivers, another only tracked the announcement and stays silent until the tx is confirmed
-	two := []string{"inv:U1:R1", "inv:U2:R1", "uans:U1", "mine+:R1", "uping:U2", "tick:3100"}
+	two := []string{"inv:U1:R1", "inv:U2:R1", "uans:U1", "mineq:R1", "mine+:R1", "uping:U2", "tick:3100"}
 	return []histParams{{Prop: "C14", Cfg: txCfg(2), Boot: "synced", Events: ev, Tx: true},
 		{Prop: "C14", Cfg: txCfg(1), Boot: "synced", Events: deep, Tx: true, ExtraDepth: 2},
 		{Prop: "C14", Cfg: txCfg(2), Boot: "synced", Events: two, Tx: true, ExtraDepth: 2}}
